@@ -19,6 +19,7 @@ EXPLANATION = (
     "coordinate transform x is mapped through the xdim axis and y through the ydim axis, clamping (raise_error=False); "
     "R20.5 shapes are burnt in input order paired with their values, and fill / dtype / all_touched are forwarded. "
     "Which cells rasterio marks is trusted / not decided."
+    "R20.3 / R20.5 are decided on the element-wise view of the shapes list (element i and length of any chain of comprehensions, zips, repetitions); R20.6 also rejects a component order that follows the template's own dimension order. "
 )
 ASSUMPTIONS = ["rasterio.features.rasterize(shapes, out_shape=(rows, cols)) maps x to columns and y to rows; later shapes overwrite earlier (trusted)"]
 
